@@ -77,6 +77,7 @@ type GhostDecl struct {
 	// InvalidatedBy: struct type full name; any store to a field of an object of that type resets the entry to Default
 	InvalidatedBy string
 	Prop          string
+	NoFrame       bool   // history ghost: no frame obligations; callers treat it as havocked by every in-module callee under contract
 	ZeroOnAlloc   string // struct type full name: a freshly allocated object of that type has the default ghost value
 }
 
@@ -271,6 +272,9 @@ func (db *SpecDB) LoadFile(file string, pkgPath string) error {
 			}
 			if len(fields) >= 5 && fields[3] == "zero_on_alloc" {
 				g.ZeroOnAlloc = fields[4]
+			}
+			if len(fields) >= 4 && fields[3] == "noframe" {
+				g.NoFrame = true
 			}
 			db.Ghosts[g.Name] = g
 			db.GhostOrder = append(db.GhostOrder, g.Name)
